@@ -243,7 +243,17 @@ def do_op(ch, f, fwd, frames):
         return "ok"
     if k == "st+":
         enter(frames, "s", ch.with_stream(RecStream(int(f[1]), fwd), show_prompt=(f[2] == "1")))
+        frames["s"][-1].sid = int(f[1])
         return "ok"
+    if k.startswith("st-@"):
+        # leave the `with_stream` block of stream <k> although it need not be the innermost one (the context
+        # managers are kept in a stack; the most recent one of that stream is taken out and closed)
+        sid = int(k[4:])
+        for i in range(len(frames["s"]) - 1, -1, -1):
+            if getattr(frames["s"][i], "sid", None) == sid:
+                frames["s"].pop(i).close()
+                return "ok"
+        return "badop"
     if k in ("st-", "st-!"):
         if not frames["s"]:
             return "badop"
